@@ -330,10 +330,12 @@ func init() {
 		leakFamily("unused-match-value", "", `match i % 3 { 0 => { 10 }, 1 => { 11 }, _ => { 12 } }; y = y + 1;`),
 		leakFamily("unused-block-value", "", `{ let q = i; q + 1 }; y = y + 1;`),
 		leakFamily("unused-nested-try-if", "", `try { if i % 3 == 0 { throw("a"); } if i % 3 == 1 { 5 } else { 6 } } catch e { if i > 2 { 7 } else { 8 } }; y = y + 1;`),
-		interpOnly(leakFamily("throwing-argument-caught", "fn bad(i: int) -> int { if i % 2 == 0 { throw(\"x\"); } i }\nfn store(x: int) -> int { x }", `y = y + try { store(bad(i)) } catch e { 0 };`)),
+		leakFamily("throw-in-callee-caught", "fn bad5(i: int) -> int { let pad = [i, i]; if pad[0] % 2 == 0 { throw(\"x\"); } i }", `try { y = y + bad5(i); } catch e { y = y + 1; }`),
+		leakFamily("throw-two-frames-down-caught", "fn bad6(i: int) -> int { if i % 2 == 0 { throw(\"x\"); } i }\nfn mid6(i: int) -> int { let q = i + 1; bad6(i) + q }", `try { y = y + mid6(i); } catch e { y = y + 1; }`),
+		leakFamily("throwing-argument-caught", "fn bad(i: int) -> int { if i % 2 == 0 { throw(\"x\"); } i }\nfn store(x: int) -> int { x }", `y = y + try { store(bad(i)) } catch e { 0 };`),
 		interpOnly(leakFamily("throwing-argument-of-closure", "fn bad3(i: int) -> int { if i % 2 == 0 { throw(\"x\"); } i }", `let dbl = fn(x: int) -> int { x * 2 }; y = y + try { dbl(bad3(i)) } catch e { 0 };`)),
-		interpOnly(leakFamily("throwing-argument-of-builtin", "fn bad4(i: int) -> str { if i % 2 == 0 { throw(\"x\"); } \"s\" }", `y = y + try { bad4(i).len() + fmt("%s", bad4(i + 1)).len() } catch e { 0 };`)),
-		interpOnly(leakFamily("throwing-argument-of-method", "fn bad2(i: int) -> str { if i % 2 == 0 { throw(\"x\"); } \"s\" }\nfn keep(a: int, s: str) -> int { a + s.len() }", `y = y + try { keep(i, bad2(i)) } catch e { 0 };`)),
+		leakFamily("throwing-argument-of-builtin", "fn bad4(i: int) -> str { if i % 2 == 0 { throw(\"x\"); } \"s\" }", `y = y + try { bad4(i).len() + fmt("%s", bad4(i + 1)).len() } catch e { 0 };`),
+		leakFamily("throwing-argument-of-method", "fn bad2(i: int) -> str { if i % 2 == 0 { throw(\"x\"); } \"s\" }\nfn keep(a: int, s: str) -> int { a + s.len() }", `y = y + try { keep(i, bad2(i)) } catch e { 0 };`),
 		leakFamily("return-before-lambda", "fn pick(i: int) -> int { if i % 2 == 0 { return i; } let f = fn(x: int) -> int { x + 1 }; if i % 3 == 0 { return f(i); } f(i) + 1 }", `y = y + pick(i) % 5;`),
 		leakFamily("lambda-made-and-called", "", `let f = fn(x: int) -> int { if x > 3 { return x; } x * 2 }; y = y + f(i % 7) % 5;`),
 		leakFamily("return-from-nested-blocks", "fn deepret(i: int) -> int { let a = i; { let b = a + 1; { let c = b + 1; if c % 2 == 0 { return c; } { let d = c + 1; if d % 3 == 0 { return d; } } } } a }", `y = y + deepret(i) % 5;`),
